@@ -23,6 +23,10 @@ theorem give_conserved2 (s : St) (t f : Nat) (x : Item) (h : Conserved2 s) : Con
   unfold give
   (repeat' split) <;> simpa [gotAll_append] using hy
 
+theorem giveNB_conserved2 (s : St) (f : Nat) (x : Item) (h : Conserved2 s) : Conserved2 (giveNB s f x) := by
+  rw [giveNB_eq]
+  exact give_conserved2 { s with limit := s.items.length + 1 } 0 f x h
+
 theorem take_conserved2 (s : St) (t f : Nat) (h : Conserved2 s) : Conserved2 (take s t f) := by
   intro y
   have hy := h y
@@ -94,6 +98,7 @@ theorem step_conserved2 (cfg : Cfg) (s : St) (a : Act) (h : Conserved2 s) : Cons
   | handle i => exact handle_conserved2 cfg s i h
   | close t => exact close_conserved2 s t h
   | resume i => exact resume_conserved2 cfg s i h
+  | giveNB f x => exact giveNB_conserved2 s f x h
 
 theorem run_conserved2 (cfg : Cfg) : ∀ (acts : List Act) (s : St), Conserved2 s → Conserved2 (run cfg acts s) := by
   intro acts
@@ -121,6 +126,7 @@ theorem step_dropped (cfg : Cfg) (s : St) (a : Act) (ha : InvA s) : (step cfg s 
     unfold handle
     (repeat' split) <;> first | rfl | exact cb_dropped cfg _ _
   | close t => show (close s t).dropped = _; unfold close; split <;> rfl
+  | giveNB f x => show (giveNB s f x).dropped = _; unfold giveNB; (repeat' split) <;> rfl
   | resume i =>
     show (resume cfg s i).dropped = _
     unfold resume
